@@ -72,13 +72,25 @@ pub(crate) mod verif_c14f {
     fn c14_glyph_cell() {
         let p = any_parts(8);
         kani::assume(p.cw >= 1 && p.ch >= 1 && p.gw >= 1 && p.gh >= 1);
+        // the atlas may be wider / taller than a whole number of cells: the partial column / row holds no glyph
+        let (ex, ey): (u32, u32) = (kani::any(), kani::any());
+        kani::assume(ex < p.cw && ey < p.ch);
+        let (iw, ih) = (p.cw * p.gw + ex, p.ch * p.gh + ey);
         let data: [u8; ATLAS_BYTES] = kani::any();
-        let n = atlas_len(&p);
+        let n = ((iw as usize + 7) / 8) * ih as usize;
         kani::assume(n <= ATLAS_BYTES);
         let idx: usize = kani::any();
         kani::assume(idx < (1 << 20));
         let mapping = move |_c: char| idx;
-        let f = font(&p, &data[..n], &mapping);
+        let f = MonoFont {
+            image: ImageRaw::new(&data[..n], Size::new(iw, ih)).unwrap(),
+            character_size: Size::new(p.cw, p.ch),
+            character_spacing: p.spacing,
+            baseline: p.baseline,
+            strikethrough: p.strikethrough,
+            underline: p.underline,
+            glyph_mapping: &mapping,
+        };
         let g = f.glyph('x');
         let cell = g.verif_area();
         let i = idx as u32;
@@ -86,6 +98,7 @@ pub(crate) mod verif_c14f {
         assert!(cell.top_left == Point::new(((i % p.gw) * p.cw) as i32, ((i / p.gw) * p.ch) as i32));
         assert!(sp::subset(&cell, &f.image.bounding_box()) == (i < p.gw * p.gh));
         kani::cover!(i == 5 && p.gw == 3);
+        kani::cover!(i == 3 && p.gw == 2 && ex == 2 && p.cw == 4);
     }
 
     /// decorations cover the full text width at the font's decoration offsets
